@@ -128,6 +128,31 @@ def c05_runs(tier):
     return r
 
 
+def pump_run(name, bufsz, covers=(), **params):
+    return {'name': name, 'sources': ['harness/pump.c'] + ENVSRC, 'params': params, 'covers': list(covers),
+            'defs': ['-DIVYKIS_VERIF_PUMP_BUF_SIZE=%d' % bufsz],
+            'bounds': 'BUF_SIZE=%d ' % bufsz + ' '.join('%s=%s' % kv for kv in sorted(params.items()))}
+
+
+def c17_runs(tier):
+    q = tier == 'quick'
+    cv = ['pump.done', 'pump.buffer-full', 'pump.partial-read', 'pump.partial-write', 'pump.input-would-block',
+          'pump.output-would-block', 'pump.input-error', 'pump.output-error', 'pump.output-returns-zero',
+          'pump.input-eintr', 'pump.output-eintr', 'pump.complete-run']
+    N, B = (4, 4) if q else (5, 6)
+    noeintr = [c for c in cv if 'eintr' not in c]
+    r = [pump_run('rw.relay', 4, cv, N=N, B=B, splice=0, relay=1),
+         pump_run('rw.norelay', 4, noeintr, N=N, B=B, splice=0, relay=0, eintr=0),
+         pump_run('splice.relay', 4, cv + ['pump.splice-pipe-full'], N=N, B=B, splice=1, relay=1, pipecap=3),
+         pump_run('splice.nopipe2', 4, [c for c in noeintr if c != 'pump.buffer-full'], N=N, B=B - 1, splice=1,
+                  relay=0, pipecap=4, nopipe2=1, eintr=0)]
+    if not q:
+        r.append(pump_run('rw.buf8', 8, ['pump.done', 'pump.buffer-full', 'pump.partial-read'], N=4, B=9, splice=0,
+                          relay=1, eintr=0, err=0))
+        r.append(pump_run('rw.shipped-4096', 4096, ['pump.done'], N=4, B=5, splice=0, relay=1, eintr=0))
+    return r
+
+
 LOOP_OUTSIDE = ('more descriptors/timers/tasks, more operations per callback and more loop iterations than stated; '
                 'the real kernel (the model is the trusted base); kqueue/dev-poll/port back ends (not built on Linux)')
 
@@ -188,6 +213,18 @@ CHECKS = {
                            'points; oracles at wait entry (not quit, something registered, progress) and at return.',
             'bounds': {'quick': '1 fd + 1 timer + 1 task, 2 operations, 3 iterations', 'thorough': '3 operations'},
             'outside': LOOP_OUTSIDE + '; failing iv_event_register is checked by the C08/C07-event harness',
+            'assumptions': ENV_ASSUMPTIONS},
+    'C17': {'runs': c17_runs,
+            'explanation': 'C17: input = B unknown bytes with EOF at a forked offset; every read/splice-in and '
+                           'write/splice-out outcome (count, EAGAIN, EINTR, error, 0) is a fork; after every pump call '
+                           'the solver compares the accepted output bytes with the input prefix, and the return '
+                           'value, shutdown and set_bands calls are checked against the harness\'s own stream state.',
+            'bounds': {'quick': 'BUF_SIZE 4 (hook), stream <= 4 bytes, 4 pump calls, one EINTR and one error, '
+                                'read/write and splice modes, with/without RELAY_EOF',
+                       'thorough': 'stream <= 6 bytes, 5 calls; BUF_SIZE 8 and the shipped 4096'},
+            'outside': 'streams longer than the bound; in splice mode data arriving between a failed splice and '
+                       'the FIONREAD probe (the pump then assumes the pipe is full until output progresses); '
+                       'pipes vs stream sockets differ only through the modelled return values',
             'assumptions': ENV_ASSUMPTIONS},
     'C16': {
         'runs': avl_runs,
